@@ -21,10 +21,11 @@ import (
 )
 
 type HStep struct {
-	Addr  string `json:"addr"`            // target; for the direct client a domain step names a scripted host
-	Len   int    `json:"len"`             // payload length
-	Shift int    `json:"shift,omitempty"` // offset of the packet in the shared buffer, relative to the usual one
-	Res   string `json:"res,omitempty"`   // direct client: what the resolver answers for this name now ("4:hex" / "6:hex"), "" = failure
+	Addr    string `json:"addr"`              // target; for the direct client a domain step names a scripted host
+	Len     int    `json:"len"`               // payload length
+	Shift   int    `json:"shift,omitempty"`   // offset of the packet in the shared buffer, relative to the usual one
+	Res     string `json:"res,omitempty"`     // direct client: what the resolver answers for this name now ("4:hex" / "6:hex"), "" = failure
+	Restart bool   `json:"restart,omitempty"` // down, ss2022: the server starts a new server session before this reply
 }
 
 // shape names what the history did before this packet (for the failure key).
@@ -52,7 +53,70 @@ func histShape(steps []HStep, i int) string {
 	return "first-domain"
 }
 
+// runHistDown: replies of one server packer through ONE client unpacker instance over one reused buffer.
+func runHistDown(s *script, c Case) {
+	p := parseProto(c.C)
+	w := mustWorld(p, c.MTU, c.Srv6, c, 8)
+	if err := w.prime(); err != nil {
+		panic(err)
+	}
+	w.statefulClient = true
+	s.add("newsession", "ok")
+	const base = 96
+	recv := specLimit(c.MTU, false)
+	shared := s.newBuf(base+48+recv+64, c.Seed)
+	s.add("stash", "ok")
+	key := "hist-down:" + p.name
+	sessions := 1 // server sessions the client unpacker has been shown so far
+	for i, st := range c.Steps {
+		if st.Restart && p.name == "ss" {
+			np, err := w.sUnpacker.NewPacker()
+			if err != nil {
+				panic(err)
+			}
+			w.sPacker = np
+			sessions++
+		}
+		alen := specAddrLen(st.Addr)
+		front, rear := specFront(p, true, alen), specRear(p)
+		fb := s.newBuf(front+st.Len+rear, c.Seed+uint64(i)+1)
+		s.fill(fb, front, st.Len, (c.Seed>>8)+uint64(i))
+		payload := clone(fb[front : front+st.Len])
+		r := s.serverPack(w, fb, st.Addr, front, st.Len, recv, "", false, nil)
+		if !r.ok() {
+			s.tag("step-refused")
+			continue
+		}
+		ts, csid := w.tsOfServerPacket(fb, r)
+		at := base + st.Shift
+		s.add(fmt.Sprintf("take %d %d", r.ps, r.pl), "ok")
+		s.add("unstash", "ok")
+		s.add(fmt.Sprintf("put %d", at), "ok")
+		copy(shared[at:], fb[r.ps:r.ps+r.pl])
+		pre := clone(shared)
+		u := s.clientUnpack(w, shared, w.serverAP, at, r.pl, ts, csid, &win{0, len(shared)})
+		if sessions >= 2 && u.class == "err:tooManySessions" {
+			// the unpacker counts the first server session as a change: a further new session within the minute is
+			// refused (stricter than the statement, never laxer; C04 documents it) — not delivered, not corrupted
+			s.tag("step-refused-by-session-rule")
+			if !bytes.Equal(shared[:at], pre[:at]) || !bytes.Equal(shared[at+r.pl:], pre[at+r.pl:]) {
+				s.fail(key+":client-unpack:canary-on-error", "bytes outside the packet modified by a refused unpack")
+			}
+		} else {
+			s.oracleUnpack(fmt.Sprintf("%s:client-unpack:reply-%d-of-session", key, min(i, 2)), u, shared, pre, at, r.pl, specNorm(st.Addr), payload)
+		}
+		s.add("stash", "ok")
+		if u.ok() {
+			s.tag("relayed")
+		}
+	}
+}
+
 func runHist(s *script, c Case) {
+	if c.Down {
+		runHistDown(s, c)
+		return
+	}
 	p := parseProto(c.C)
 	if p.name == "direct" {
 		runHistDirect(s, c)
@@ -259,6 +323,28 @@ func genHist(r *common.Rng, i int) Case {
 		}
 		if r.Intn(10) == 0 {
 			st.Len = specLimit(c.MTU, false) + 10 // a packet that is refused in between
+		}
+		c.Steps = append(c.Steps, st)
+	}
+	return c
+}
+
+func genHistDown(r *common.Rng, i int) Case {
+	c := Case{Kind: "hist", Down: true, Seed: r.U64(), PolC: "n", PolS: common.Pick(r, pols)}
+	c.C = []string{"none", "socks5", "ss:0", "ss:1"}[i%4]
+	c.MTU = common.Pick(r, []int{1280, 1500, 9000})
+	c.Srv6 = r.Bool()
+	n := r.Range(2, 8)
+	for j := 0; j < n; j++ {
+		st := HStep{Addr: genAddrPort(r), Len: common.Pick(r, []int{0, 1, 64, 700, 1100})}
+		if r.Intn(5) == 0 {
+			st.Shift = common.Pick(r, []int{1, 2, 16, 40})
+		}
+		if r.Intn(10) == 0 {
+			st.Len = specLimit(c.MTU, false) + 10
+		}
+		if j > 0 && r.Intn(9) == 0 {
+			st.Restart = true
 		}
 		c.Steps = append(c.Steps, st)
 	}
